@@ -117,9 +117,33 @@ def run_cli(spec):
                 names.append(name)
                 expect[name] = (o, exp, q.text())
                 k += 1
-        r = cliobs.run_cli(["--no-colors"] + names, cwd=tmp, timeout=300)
+        # the run also holds files without any violation (clean and notice-only), one of them last:
+        # the verdict of a violating file and the exit status must not depend on its neighbours
+        others = {}
+        tries = 0
+        while len(others) < max(3, len(names) // 3) and tries < 60:
+            tries += 1
+            oname = "o%d.c" % tries
+            p = conf.make("%s/c02cli/o/%d/%d" % (spec["seed"], spec["shard"], tries), "c", name=oname)
+            r0 = core.api_run(oname, p.text(), clock=False)
+            if r0.outcome == "ok" and r0.status == "OK":
+                others[oname] = (p.text(), any(d[1] == "Notice" for d in r0.diags))
+                with open(os.path.join(tmp, oname), "w") as f:
+                    f.write(p.text())
+        order = names + list(others)
+        rng.shuffle(order)
+        notice_only = [n for n in others if others[n][1]]
+        last = (notice_only or list(others) or [None])[0]
+        if last is not None:
+            order.remove(last)
+            order.append(last)
+        r = cliobs.run_cli(["--no-colors"] + order, cwd=tmp, timeout=300)
         sh.case("cli\0" + "\0".join(expect[n][2] for n in names))
-        case = {"mode": "cli", "files": {n: expect[n][2] for n in names}}
+        files_map = {n: expect[n][2] for n in names}
+        files_map.update({n: others[n][0] for n in others})
+        case = {"mode": "cli", "files": files_map, "order": order}
+        sh.tally("cli_runs", "variants_mixed_with_%d_clean_or_notice_files_last_is_%s" % (
+            len(others), "notice_only" if last in notice_only else "clean"))
         sh.count("c02.cli_exit_status_nonzero")
         if r.timeout:
             sh.inconclusive.append("CLI batch exceeded the wall-clock watchdog")
@@ -162,7 +186,7 @@ def replay(case, sh):
             for n, t in case["files"].items():
                 with open(os.path.join(tmp, n), "w") as f:
                     f.write(t)
-            r = cliobs.run_cli(["--no-colors"] + list(case["files"]), cwd=tmp)
+            r = cliobs.run_cli(["--no-colors"] + list(case.get("order") or case["files"]), cwd=tmp)
             sh.evaluations += 1
             if r.rc in (0, None):
                 sh.violation("cli_exit_status", (str(r.rc),), case, {"rc": r.rc})
